@@ -47,7 +47,7 @@ def reject_case(draw):
                 inmask=None if inmask is None else [draw(st.integers(0, 5)) != 0 for _ in range(n)],
                 prev=None if prev is None else [draw(st.integers(0, 5)) != 0 for _ in range(n)],
                 sticky=draw(st.booleans()), zero_w=[draw(st.integers(0, 7)) == 0 for _ in range(n)], seed=draw(st.integers(0, 999)),
-                quantised=draw(st.booleans()))
+                quantised=draw(st.booleans()), int_outmask=draw(st.sampled_from([False, False, True])))
 
 
 def dilate(mask, k):
@@ -144,7 +144,8 @@ def reject_body(case):
     if inmask is not None:
         kw['inmask'] = inmask.reshape(shape)
     if prev is not None:
-        kw['outmask'] = prev.reshape(shape).copy()
+        # the mask of a previous pass, as returned (boolean) or kept by the caller as a 0/1 integer array
+        kw['outmask'] = prev.reshape(shape).copy() if not case.get('int_outmask') else prev.reshape(shape).astype('i4')
     got, qdone = call(djs_reject, data, model, **kw)
     excluded = np.zeros(n, dtype=bool)
     if inmask is not None:
@@ -334,12 +335,15 @@ def sky_case(draw):
     b1 = draw(st.one_of(st.integers(0, top), st.sampled_from([top, 27 if top >= 27 else top])))
     b2 = draw(st.integers(0, top).filter(lambda b: b != b1))
     nrow, npix = draw(st.integers(1, 4)), draw(st.integers(3, 30))
+    big = draw(st.integers(0, 9)) == 0          # a wide growth radius on a spectrum-sized row
+    if big:
+        npix = draw(st.integers(280, 400))
     flags = []
     for _ in range(draw(st.integers(0, 6))):
         flags.append([draw(st.integers(0, nrow - 1)), draw(st.sampled_from([0, 1, npix - 1, npix - 2, npix // 2])) if draw(st.booleans()) else draw(st.integers(0, npix - 1)),
                       draw(st.sampled_from(['sky', 'red', 'both']))])
     other = [[draw(st.integers(0, nrow - 1)), draw(st.integers(0, npix - 1)), draw(st.integers(0, top))] for _ in range(draw(st.integers(0, 8)))]
-    return dict(dtype=dt, b1=b1, b2=b2, nrow=nrow, npix=npix, flags=flags, other=other, ngrow=draw(st.sampled_from([2, 0, 1, 3, 4])),
+    return dict(dtype=dt, b1=b1, b2=b2, nrow=nrow, npix=npix, flags=flags, other=other, ngrow=draw(st.sampled_from([2, 0, 1, 3, 4])) if not big else draw(st.sampled_from([128, 127, 150, 64])),
                 with_ormask=draw(st.sampled_from([True, True, True, False])))
 
 
